@@ -1,6 +1,6 @@
 PROPERTY = {
     'id': 'C02',
- 'extra': ['bounded.run_corpus.run'],
+ 'extra': ['bounded.run_corpus.run', 'bounded.c02_wants.run'],
     'contract_modules': ['doctest_example', 'util_stream', 'checker', 'doctest_part', 'runner'],
     'functions': ['xdoctest.doctest_example:DocTest.run', 'xdoctest.doctest_example:DocTest._post_run', 'xdoctest.doctest_example:DocTest.anything_ran',
                   'xdoctest.checker:check_got_vs_want',
@@ -16,7 +16,8 @@ PROPERTY = {
               'expected exceptions); check is called once with this part, its own output and that list; a GotWantException sets exc_info and '
               'leaves the loop (invariant: no failure yet at the loop head)',
               '_post_run / run: failed == (exc_info is not None), skipped == (every part skipped), passed == neither; exactly one of the three'],
-        'B': ['the real parser and DocTest.run on every sequence of 1..2 (thorough 3) statement templates plus random longer ones, each run twice, against an oracle written from the property statements: executed statements and their order, verdict, recorded exception and failing part, logged output, renderable report, stdout restored, second run identical, module global untouched (bounded/run_corpus.py)'],
+        'B': ['doctests built from statements with outputs known by construction: every placement of wants x every correct want form (all output since the previous want / output of the final expression statement / repr of its value) passes; every single corruption of one want (replaced, line appended, line prepended, last line dropped) fails with a got/want error at exactly that want, all statements before it executed, none after (bounded/c02_wants.py)',
+                   'the real parser and DocTest.run on every sequence of 1..2 (thorough 3) statement templates plus random longer ones, each run twice, against an oracle written from the property statements: executed statements and their order, verdict, recorded exception and failing part, logged output, renderable report, stdout restored, second run identical, module global untouched (bounded/run_corpus.py)'],
              'T': ['check_output as the relation S.match (C05)', 'repr as an oracle'],
     },
     'explanation': 'C02 at the checker/part level: exact (iff) characterisations, one loop invariant for the suffix search.',
